@@ -61,7 +61,12 @@ type c08Env struct {
 }
 
 func (e *c08Env) startTarget(kinds string) error {
-	t, err := StartTarget("race", "-ip", e.srv.String(), "-ip2", e.srv2.String(), "-kinds", kinds)
+	var env []string
+	if strings.HasSuffix(kinds, ",nomock") { // real DRKey fetching, no SCION daemon configured (an IP-only deployment)
+		kinds = strings.TrimSuffix(kinds, ",nomock")
+		env = []string{"USE_MOCK_KEYS=false"}
+	}
+	t, err := StartTargetEnv("race", env, "-ip", e.srv.String(), "-ip2", e.srv2.String(), "-kinds", kinds)
 	if err != nil {
 		return err
 	}
@@ -778,6 +783,8 @@ func init() {
 				sentinel: c08NTPSentinel(func(e *c08Env) netip.AddrPort { return netip.AddrPortFrom(e.srv, 10123) }, scionWrap(10123), scionUnwrap)},
 			{loop: "server.runSCIONServer", name: "scion-listener(end-host port)", kinds: "scion,ntske", inputs: c08SCIONInputs(10123), send: udpTo(srvIP, 30041),
 				sentinel: c08NTPSentinel(func(e *c08Env) netip.AddrPort { return netip.AddrPortFrom(e.srv, 30041) }, scionWrap(10123), scionUnwrap)},
+			{loop: "server.runSCIONServer", name: "scion-listener(no daemon)", kinds: "scion,ntske,nomock", inputs: c08SCIONInputs(10123), send: udpTo(srvIP, 10123),
+				sentinel: c08NTPSentinel(func(e *c08Env) netip.AddrPort { return netip.AddrPortFrom(e.srv, 10123) }, scionWrap(10123), scionUnwrap)},
 			{loop: "server.runSCIONServer", name: "scion-dispatcher", kinds: "disp", inputs: c08SCIONInputs(40000), send: udpTo(srv2IP, 30041),
 				sentinel: func(e *c08Env) bool { // SCMP echo: the dispatcher answers it itself
 					p := &peer.SCIONPkt{SrcIA: c08LIA, DstIA: c08LIA, SrcHost: e.cli, DstHost: e.srv2, Payload: []byte("sentinel"),
